@@ -69,7 +69,33 @@ Inductive case :=
    timeout); reached = the schedule was reached (the first session was live before and after the
    duplicate was decided); impl: see Model.long_ok *)
 | Long (errk : nat) (late reached first_live dup_admitted : bool) (maxlive : nat)
-       (pend_after reuse : bool).
+       (pend_after reuse : bool)
+(* ONE session with a batch of np processes (each a scripted process object of its own, some returning
+   from Run at once, some staying inside; in half of the cases under GOMAXPROCS(1)), forced to end in
+   the given way; retry: a process of the first round fails with a SubsetError and the first process is
+   Retryable - handleError runs the whole batch a second time.  impl: the event ledger as in Sess (Run /
+   Stop calls PER PROCESS OBJECT), per process the maximal number of Runs inside it at the same time,
+   the class of the returned error, processes inside Run after Execute returned, whether the id was
+   admitted again; dup: a second batch for the same ids requested while the session was live -
+   (refused, (Run calls, Stop calls per process of the duplicate)) *)
+| Batch (r : role) (o : outcome) (ph : phase) (retry : bool) (np : nat)
+        (impl_evs : list ev) (impl_maxsim : list nat) (impl_ret : ret) (impl_live_after : nat)
+        (impl_reuse : bool) (dup : option (bool * (list nat * list nat)))
+(* a batch of np processes requested while a session with its id is live; impl: was it refused, Run /
+   Stop calls per process, processes inside Run and pending flag after everything ended, re-use *)
+| BatchRefused (np : nat) (refused : bool) (bruns bstops : list nat) (live_after : nat)
+               (pend_after reuse : bool)
+(* a long history on ONE coordinator: k sessions with distinct ids (nsucc succeed, nerr fail in a
+   process, ncancel are entered with a cancelled context) run one after the other, each to its end;
+   impl, aggregated: how many of them were refused / did not run each process exactly once (none, for
+   the cancelled ones) / did not stop each process exactly once, subscriptions left in the table,
+   sessions never closed, Execute calls that did not return; dups: in the middle of the history one
+   session stays live while that many requests for its id are made one after the other - how many of
+   them were NOT refused, Run calls on their processes; then the probes, in order: (the id is new
+   to the coordinator, (admitted, (Run calls, Stop calls))) *)
+| Hist (k nsucc nerr ncancel : N) (refused notrun stopbad leftover unclosed stuck : N)
+       (dups dup_admitted dup_runs : N)
+       (probes : list (bool * (bool * (nat * nat)))).
 
 Definition ret_eqb (a b : ret) : bool :=
   match a, b with
@@ -196,6 +222,23 @@ Definition agree (c : case) : bool :=
   | Long _ _ reached first_live dup_admitted _ _ _ =>
       (* a schedule the machine was too slow for says nothing *)
       negb reached || (first_live && Bool.eqb dup_admitted (negb long_dup_refused))
+  | Batch r o ph retry np evs maxsim rt live reuse dup =>
+      feasible r o && (negb retry || match o with ProcessError => true | _ => false end)
+      && nats_eqb (summary np (batch_trace PerIteration PerIteration r o ph retry np)) (summary np evs)
+      && nats_eqb (batch_maxsim PerIteration r o ph retry np) maxsim
+      && ret_eqb (batch_ret r o ph retry) rt
+      && match dup with
+         | None => true
+         | Some (rf, (dr, ds)) =>
+             rf && nats_eqb dr (repeat 0 np) && nats_eqb ds (refused_stops PerIteration np)
+         end
+  | BatchRefused np refused bruns bstops _ _ _ =>
+      refused && nats_eqb bruns (repeat 0 np) && nats_eqb bstops (refused_stops PerIteration np)
+  | Hist k nsucc nerr ncancel refused notrun _ _ _ _ _ dupadm _ probes =>
+      (* the model: whatever k, every request for an id that is not live is admitted, every request for
+         the id of the live session is refused (C09_live_session_keeps_out_duplicates) *)
+      N.eqb (nsucc + nerr + ncancel) k && N.eqb refused 0 && N.eqb notrun 0 && N.eqb dupadm 0
+      && forallb (fun p => Bool.eqb (fst (snd p)) (hist_admits k)) probes
   end.
 
 Definition judge (c : case) : bool :=
@@ -221,6 +264,12 @@ Definition judge (c : case) : bool :=
   | SRace nS nP nX ops closed lft ok => ok && Nat.eqb (length closed) nX && srace_ok closed lft
   | Long _ _ reached first_live dup_admitted maxlive pend_after reuse =>
       negb reached || long_ok first_live dup_admitted maxlive pend_after reuse
+  | Batch r o ph retry np evs maxsim rt live reuse dup =>
+      batch_ok (negb retry) np evs maxsim && Nat.eqb live 0 && reuse && dup_ok dup
+  | BatchRefused np refused bruns bstops live pend_after reuse =>
+      refused_ok refused bruns bstops && Nat.eqb live 0 && negb pend_after && reuse
+  | Hist k _ _ _ refused notrun stopbad leftover unclosed stuck _ dupadm dupruns probes =>
+      hist_ok refused notrun stopbad leftover unclosed stuck probes && N.eqb dupadm 0 && N.eqb dupruns 0
   end.
 
 Definition has_dup (l : list nat) : bool :=
@@ -243,6 +292,15 @@ Definition tag (c : case) : N :=
   | RaceComm _ _ _ _ _ _ _ => 40%N
   | SRace _ _ _ _ _ lft _ => match lft with [] => 42%N | _ => 41%N end
   | Long errk late _ _ _ _ _ _ => (43 + 2 * N.of_nat errk + (if late then 1 else 0))%N
+  | Batch r o ph retry _ _ _ _ _ _ dup =>
+      (100 + (match o with Success => 0 | ProcessError => 2 | CoordinatorSilent => 4
+                         | GlobalTimeout => 6 | Cancelled => 8 end)
+           + (match r with Coord => 0 | Peer => 1 end)
+           + (match ph with BeforeStart => 0 | DuringRun => 10 | BeforeEntry => 20 end)
+           + (if retry then 30 else 0)
+           + (match dup with None => 0 | Some _ => 40 end))%N
+  | BatchRefused _ _ _ _ _ _ _ => 190%N
+  | Hist _ _ _ _ _ _ _ _ _ _ dups _ _ _ => if N.eqb dups 0 then 191%N else 192%N
   end.
 
 Definition check_all := check_cases agree judge tag.
